@@ -28,7 +28,8 @@ Mutators == {"apply_style_attributes", "resolve_use", "simplify", "clip_to_viewb
              "remove_unpainted_shapes", "remove_nonsvg_content", "remove_processing_instructions",
              "remove_anonymous_symbols", "remove_title_meta_desc", "set_attributes",
              "remove_attributes", "resolve_nested_svgs", "topicosvg",
-             "set_viewbox", "remove_viewbox"}    \* set_/remove_attributes aimed at the root's viewBox
+             "set_viewbox", "remove_viewbox",    \* set_/remove_attributes aimed at the root's viewBox
+             "set_root_paint"}                   \* set_attributes giving the root an inheritable paint
 PopQueries   == {"shapes", "bounding_box"}
 FlushQueries == {"tostring", "toetree", "checkpicosvg"}
 PureQueries  == {"view_box", "tolerance", "xpath"}
